@@ -8,7 +8,7 @@ ROUTER_TB = COMMON_TB + [
 ]
 
 CFG = {
-    "harness": ["router", "router:conflicts", "router:small", "router:live"],
+    "harness": ["router", "router:conflicts", "router:small", "router:live", "router:pipeline"],
     "run_module": "Run_Router",
     "coq_header": "From DS Require Import Base Versions Router RouterSpec.\nFrom DSR Require Import Run_Router.",
     "case_type": "rcase",
@@ -30,7 +30,14 @@ CFG = {
             "registration orders; ~62 000 tables), quick tier a seeded sample of pairs and triples. "
             "A live slice (router:live) serves "
             "tables with a real HttpServer (unversioned, or ClientSpecifiesVersionInHeader) and reads status, echoed "
-            "operation id / variables / content type / body limit and every Allow header line off the wire.",
+            "operation id / variables / content type / body limit and every Allow header line off the wire. "
+            "A pipeline slice (router:pipeline) serves tables with a real HttpServer under a version policy chosen "
+            "per case (unversioned: a version-restricted table must then be refused at start; or the header policy "
+            "with a maximum drawn from the chain) and sends requests whose version header is absent, a chain "
+            "version, a version strictly between two chain versions (pre-release of a bound), a build-metadata twin, "
+            "newer than the maximum, junk or non-ASCII, over raw paths with escapes, doubled slashes and dot "
+            "segments; judged against the composed model Pipeline.handle (policy, then path normalisation, then "
+            "the trie) instantiated through an order embedding of semver into N relative to the chain.",
     "exhaustive_note": "thorough tier: the small-scope stream enumerates every ordered pair of endpoints of its "
                        "scope with the complete request grid; everything else is sampled",
     "trusted_base": ROUTER_TB,
@@ -46,7 +53,9 @@ CFG = {
                 "completeness, uniqueness); bindings are exactly the template's variables, each its own segment, the "
                 "wildcard all remaining segments; acceptance and every lookup are invariant under permutation of the "
                 "registration order; the trie stands for exactly the declared table; lookup never trips its internal "
-                "assertions. Proved by an abstraction function routes: trie -> table and induction over templates / "
+                "assertions; and through the composed request pipeline (version policy, path "
+                "normalisation, trie) the handler of e runs exactly when the policy yields a version, the raw path "
+                "normalises and e serves the decoded segments at that version. Proved by an abstraction function routes: trie -> table and induction over templates / "
                 "segment lists. Correspondence with the real router on generated tables and request grids "
                 "(hundreds of tables, tens of thousands of lookups per run), judged in Coq by the declarative "
                 "specification and by the model.",
